@@ -11,13 +11,17 @@ stand-in for the Jinja templates, imported, bound (XmlContext.build_recursive) a
 instantiated.  Importability is therefore checked differentially through a stand-in
 renderer: Jinja, the template text itself, ruff and the click CLI are not covered.
 """
+import hashlib
 import json
 import keyword
 import os
+import re
+import time
 
 from common import Check, coq_bad_indices, coq_eval, run_impl, standard_proof_step, TRUSTED_COMMON, ROOT, REPO
 from coqterm import cstr, cbool, copt, clist
 import codegen_run
+import c07_gen
 
 IMPORTS = "From XV Require Import Base.Str Gen.SafeTables Model.Safe Model.Rename Model.SafeCorr Spec.PyIdent."
 
@@ -191,6 +195,329 @@ WITNESS_CLASSES = [
 ]
 
 
+# ============================================================================ pipeline oracle
+def _walk_plans(plans, path=""):
+    for p in plans:
+        q = (path + "." if path else "") + p["class_name"]
+        yield q, p
+        yield from _walk_plans(p.get("inner", []), q)
+
+
+def _all_names(res):
+    """every identifier the generator produced for this run (fields, constants, classes, module path parts)"""
+    out = []
+    for m in res.get("modules", []):
+        out += [x for x in m["module"].split(".") if x]
+        for _, p in _walk_plans(m.get("classes", [])):
+            out.append(p["class_name"])
+            for a in p["attrs"]:
+                out.append(a.get("field_name") or a.get("constant_name"))
+    for pk in res.get("packages", []):
+        out += [x for x in pk["module"].split(".") if x]
+    return [x for x in dict.fromkeys(out) if x]
+
+
+def _meta_strings(res):
+    for m in res.get("modules", []):
+        if m.get("namespace"):
+            yield m["namespace"]
+        for _, p in _walk_plans(m.get("classes", [])):
+            for v in (p.get("meta") or {}).values():
+                if isinstance(v, str):
+                    yield v
+
+
+def _find_plan(res, module, qual):
+    for m in res.get("modules", []):
+        if m["module"] == module:
+            for q, p in _walk_plans(m.get("classes", [])):
+                if q == qual:
+                    return p
+    return None
+
+
+def _has_forwardref_union(res):
+    for m in res.get("modules", []):
+        for _, p in _walk_plans(m.get("classes", [])):
+            for a in p["attrs"]:
+                hit = re.search(r'ForwardRef\("[^"()]+" \| [^)]*\)|ForwardRef\([^")]* \| "[^"]+"[^)]*\)|Type\[[^\]"]* \| "[^"]+"[^\]]*\]',
+                                a.get("field_definition") or "")
+                if hit:
+                    return hit.group(0)
+    return None
+
+
+SHADOW_FIELDS = {"bytes", "tuple", "dataclass"}   # used by the generated class bodies, missing from text.stop_words
+IMPORTED_HELPERS = ("ForwardRef", "Sequence", "Mapping", "XmlDate", "XmlDateTime", "XmlDuration", "XmlPeriod", "XmlTime", "dataclass")
+
+
+def _shadowing_classes(res):
+    """generated top-level classes named like something the module imports for its own use (not in text.stop_words)"""
+    return sorted({p["class_name"] for m in res.get("modules", []) for p in m.get("classes", []) if p["class_name"] in IMPORTED_HELPERS})
+
+
+def _defined_elsewhere(res, module, name):
+    return any(m["module"] != module and any(p["class_name"] == name for p in m.get("classes", [])) for m in res.get("modules", []))
+
+
+PREF_SUFFIX = ("_Attribute", "_Element", "_AnyAttribute", "_Any", "_Choice", "_Extension", "_Restriction", "_Enumeration", "_SimpleType",
+               "_Group", "_AttributeGroup")
+
+
+def classify_pipeline(job, res, coq):
+    """-> list of (class, what).  `coq` batches the Coq verdicts (filled in a second pass)."""
+    out = []
+    conv = c07_gen.conv_of_options(job["options"])
+    e = res.get("error") or {}
+    st = res["status"]
+    if st == "timeout":
+        out.append(("pipeline-timeout", f"generation did not end within {job.get('timeout', 20)} s (stage {res['stage']}, at {e.get('where')})"))
+        return out
+    if st == "error":
+        msg, typ, where = e.get("message") or "", e.get("type"), e.get("where") or ""
+        if typ == "ValueError" and msg == "no such name" and "codegen/models.py" in where:
+            out.append(("attr-name-without-unicode-name", "Attr.__post_init__ calls unicodedata.name on a code point that has no name: ValueError"))
+        elif typ == "IndexError" and "split_qname" in where and job["kind"] == "json":
+            out.append(("json-empty-key", "DictMapper: empty JSON key -> IndexError in namespaces.split_qname"))
+        elif res["stage"] == "validate_imports" and typ == "SyntaxError":
+            coq.ask("names", (res["id"], "syntax"), _all_names(res))
+            out.append(("?syntax", msg))
+        elif res["stage"] == "validate_imports" and typ == "TypeError" and "already defined as" in msg:
+            out.append(("?enum-dup", msg))
+        elif res["stage"] == "validate_imports" and typ == "NameError" and re.search(r"name '_\w+?__\w+' is not defined", msg):
+            out.append(("class-name-mangled", "a class whose name starts with two underscores is referenced inside a class body: " + msg))
+        elif res["stage"] == "validate_imports" and typ == "TypeError" and "unsupported operand type(s) for |" in msg and _has_forwardref_union(res):
+            out.append(("choice-type-forwardref-union", "Filters.choice_type wraps a union that contains a quoted forward reference: "
+                        + _has_forwardref_union(res) + " -> " + msg))
+        elif res["stage"] == "validate_imports" and typ in ("TypeError", "NameError", "AttributeError") and _shadowing_classes(res):
+            out.append(("class-name-shadows-import", f"generated class(es) {_shadowing_classes(res)} hide the name the module imports for its "
+                        f"own use: {typ}: {msg}"))
+        elif res["stage"] == "validate_imports" and typ == "TypeError" and SHADOW_FIELDS & {
+                a.get("field_name") for m in res.get("modules", []) for _, p in _walk_plans(m.get("classes", [])) for a in p["attrs"]}:
+            out.append(("field-shadows-builtin-type", f"a field named bytes/tuple/dataclass shadows the name the class body itself uses: {msg}"))
+        elif res["stage"] == "validate_imports" and typ == "ValueError" and "invalid enum member name" in msg:
+            out.append(("enum-member-reserved-name", msg))
+        elif res["stage"] == "process" and typ == "KeyError" and "detect_circular_references.py" in where:
+            out.append(("internal-keyerror-detect-circular-references", f"KeyError in DetectCircularReferences.is_circular ({where})"))
+        else:
+            out.append((f"internal-error-{typ}-{res['stage']}", f"{typ}: {msg} at {where}"))
+    # duplicates are judged on the plan even when the import failed because of them
+    for m in res.get("modules", []):
+        tops = [p for p in m.get("classes", [])]
+        names, cnames = [p["name"] for p in tops], [p["class_name"] for p in tops]
+        if len(set(cnames)) != len(cnames):
+            coq.ask("dupclasses", (res["id"], m["module"]), (conv, names, cnames))
+        for q, p in _walk_plans(tops):
+            key = "constant_name" if p["kind"] == "enum" else "field_name"
+            fields = [a[key] for a in p["attrs"]]
+            if len(set(fields)) != len(fields):
+                coq.ask("dupfields", (res["id"], m["module"], q), (conv, p["kind"] == "enum", [a["name"] for a in p["attrs"]], fields,
+                                                                   [a.get("tag") for a in p["attrs"]]))
+            inner = [i["class_name"] for i in p.get("inner", [])]
+            if len(set(inner)) != len(inner):
+                coq.ask("dupclasses", (res["id"], m["module"] + "::" + q), (conv, [i["name"] for i in p["inner"]], inner))
+            if set(inner) & set(fields):
+                out.append(("field-vs-inner-class", f"{m['module']}.{q}: inner classes {inner} / fields {fields}"))
+    b = res.get("bind")
+    if st == "ok" and b:
+        if b.get("import_error"):
+            ie = b["import_error"]
+            if ie.get("type") == "SyntaxError":
+                coq.ask("names", (res["id"], "syntax"), _all_names(res))
+                out.append(("?syntax", ie.get("message")))
+            else:
+                out.append((f"internal-error-import-{ie.get('type')}", str(ie.get("message"))))
+        for c in b["classes"]:
+            for ph in ("build", "init"):
+                if c[ph] not in ("ok", None):
+                    err = c[ph]
+                    plan = _find_plan(res, c["module"], c["qualname"]) or {}
+                    fields = [a.get("field_name") for a in plan.get("attrs", [])]
+                    outer = _find_plan(res, c["module"], c["qualname"].split(".")[0]) or {}
+                    ofields = [a.get("field_name") for _, pp in _walk_plans([outer]) for a in pp.get("attrs", [])] if outer else []
+                    missing = re.match(r"name '(\w+)' is not defined", err["message"] or "")
+                    mod_fields = {a.get("field_name") for mm in res.get("modules", []) if mm["module"] == c["module"]
+                                  for _, pp in _walk_plans(mm.get("classes", [])) for a in pp.get("attrs", [])}
+                    shadow = _shadowing_classes(res)
+                    if shadow and err["type"] in ("TypeError", "NameError", "XmlContextError", "AttributeError"):
+                        out.append(("class-name-shadows-import", f"{c['module']}.{c['qualname']}: generated class(es) {shadow} hide the name the "
+                                    f"module imports for its own use: {err['type']}: {err['message']}"))
+                    elif err["type"] == "NameError" and missing and _defined_elsewhere(res, None, missing.group(1)):
+                        out.append(("cross-module-circular-reference", f"{c['module']}.{c['qualname']}: the annotation names {missing.group(1)}, a class of "
+                                    "another generated module that is not imported (circular dependency turned into a bare forward reference)"))
+                    elif err["type"] in ("TypeError", "KeyError", "AttributeError") and (SHADOW_FIELDS & (set(fields + ofields) | mod_fields)):
+                        out.append(("field-shadows-builtin-type", f"{c['module']}.{c['qualname']}: a field named bytes/tuple shadows the type "
+                                    f"used by another annotation or default_factory: {err['message']}"))
+                    else:
+                        out.append((f"bind-{ph}-{err['type']}", f"{c['module']}.{c['qualname']}: {err['type']}: {err['message']} at {err.get('where')}"))
+    return out
+
+
+class CoqBatch:
+    def __init__(self):
+        self.q = {"names": [], "dupfields": [], "dupclasses": []}
+        self.ans = {}
+
+    def ask(self, kind, key, payload):
+        self.q[kind].append((key, payload))
+
+    def run(self):
+        if self.q["names"]:
+            flat = [(key, n) for key, names in self.q["names"] for n in names]
+            codes = coq_codes("pipe_names", "str", "name_verdict", [cstr(n) for _, n in flat])
+            for (key, n), code in zip(flat, codes):
+                self.ans.setdefault(("names", key), []).append((n, code))
+        if self.q["dupfields"]:
+            terms = [f"({conv_term(conv)}, {cbool(enum)}, {lstr(names)}, {lstr(fields)})" for _, (conv, enum, names, fields, _t) in self.q["dupfields"]]
+            codes = coq_codes("pipe_dupf", "list (str * str) * bool * list str * list str", "classify_dup_fields", terms)
+            for (key, payload), code in zip(self.q["dupfields"], codes):
+                self.ans[("dupfields", key)] = (code, payload)
+        if self.q["dupclasses"]:
+            terms = [f"({conv_term(conv)}, {lstr(names)}, {lstr(cnames)})" for _, (conv, names, cnames) in self.q["dupclasses"]]
+            codes = coq_codes("pipe_dupc", "list (str * str) * list str * list str", "classify_dup_classes", terms)
+            for (key, payload), code in zip(self.q["dupclasses"], codes):
+                self.ans[("dupclasses", key)] = (code, payload)
+
+
+def _pref_signature(names, tags):
+    """does some colliding name carry the suffix/prefix rename_attribute_by_preference adds?"""
+    slugs = {}
+    for n, t in zip(names, tags):
+        slugs.setdefault(re.sub(r"[^a-z0-9]", "", n.lower()), []).append((n, t))
+    for group in slugs.values():
+        if len(group) > 1:
+            for n, t in group:
+                if (t and n.endswith("_" + t)) or any(n.endswith(sfx) for sfx in PREF_SUFFIX) or re.match(r"^[A-Za-z0-9_.\-]+_[^_]", n) and "_" in n and t in ("Element", "Attribute") and False:
+                    return True
+    return False
+
+
+def resolve_pipeline(job, res, prelim, coq):
+    out = []
+    for cls, what in prelim:
+        if cls == "?syntax":
+            verdicts = coq.ans.get(("names", (res["id"], "syntax")), [])
+            kws = [n for n, code in verdicts if code == 1]
+            bad = [n for n, code in verdicts if code == 2]
+            hostile_meta = [v for v in _meta_strings(res) if any(ch in v for ch in '"\\\n\r')]
+            if kws:
+                out.append(("keyword-not-reserved", f"generated module does not compile: name(s) {kws} are Python keywords ({what})"))
+            elif hostile_meta:
+                out.append(("template-unescaped-string", f"class Meta / __NAMESPACE__ string written without escaping: {hostile_meta[:2]} ({what})"))
+            elif bad:
+                out.append(("generated-name-not-identifier", f"name(s) {bad} are not identifiers ({what})"))
+            else:
+                out.append(("generated-syntax-error", what))
+        elif cls == "?enum-dup":
+            got = [(k, v) for k, v in coq.ans.items() if k[0] == "dupfields" and k[1][0] == res["id"] and v[1][1]]
+            if any(code == 2 for _, (code, _p) in got):
+                out.append(("dup-field-safe-adjust", f"enum members collide after the safe prefix/suffix: {what}"))
+            elif got:
+                out.append(("dup-enum-member-unexplained", what))
+            else:
+                out.append(("internal-error-TypeError-validate_imports", what))
+        else:
+            out.append((cls, what))
+    for k, v in coq.ans.items():
+        if k[0] == "names" or k[1][0] != res["id"]:
+            continue
+        code, payload = v
+        if k[0] == "dupfields":
+            conv, enum, names, fields, tags = payload
+            what = f"{k[1][1]}.{k[1][2]}: attr names {names} -> {'constants' if enum else 'fields'} {fields}"
+            if code == 2:
+                cls = "dup-field-safe-adjust"
+            elif code == 1 and _pref_signature(names, tags):
+                cls = "dup-field-preference-rename"
+            else:
+                cls = "dup-field-unexplained"
+            if not (enum and any(c == "dup-field-safe-adjust" for c, _ in out) and cls == "dup-field-safe-adjust"):
+                out.append((cls, what))
+        elif k[0] == "dupclasses":
+            conv, names, cnames = payload
+            what = f"{k[1][1]}: class names {names} -> {cnames}"
+            if "::" in k[1][1] and code in (1, 2):
+                out.append(("dup-inner-class", what + "  (inner classes are never renamed apart)"))
+            elif code == 2:
+                out.append(("dup-class-safe-adjust", what))
+            elif code == 1 and any(n.endswith("_abstract") for n in names):
+                out.append(("dup-class-abstract-suffix", what))
+            else:
+                out.append(("dup-class-unexplained", what))
+    # a module with two classes / two fields of the same name has no defined behaviour: attribute the follow-up
+    # import or binding error of the same run to the duplicate instead of reporting it a second time
+    if any(c in ("dup-class-safe-adjust", "dup-class-abstract-suffix", "dup-field-safe-adjust", "dup-field-preference-rename", "dup-inner-class")
+           for c, _ in out):
+        out = [(c, w) for c, w in out if not (c.startswith("internal-error-") and c.endswith("validate_imports")) and not c.startswith("bind-")]
+    return out
+
+
+def pipeline_oracle(ck: Check):
+    r = ck.rng
+    t0 = time.time()
+    diffs = codegen_run.validate_standin()
+    for d in diffs:
+        ck.failure("standin-differs-from-committed-output", d, {"difference": d})
+    jobs = []
+    # replayable witnesses first
+    W = c07_gen
+    fixed = [
+        ("xsd", {"s.xsd": W_XSD_PREF}, {}), ("xsd", {"s.xsd": W_XSD_AWAIT}, {}), ("xsd", {"s.xsd": W_XSD_NONETYPE}, {}),
+        ("xsd", {"s.xsd": W_XSD_ENUM}, {}), ("json", {"s.json": '{"1a": 1, "value_1a": 2}'}, {}),
+        ("json", {"s.json": '{"": 1}'}, {}), ("xml", {"s.xml": "<r><\u0378>1</\u0378></r>"}, {}),
+        ("json", {"s.json": '{"a\\"b": {"x": 1}}'}, {}), ("xsd", {"s.xsd": W_XSD_BYTES}, {}),
+    ]
+    for kind, src, opt in fixed:
+        jobs.append({"sources": src, "options": opt, "kind": kind, "features": ["witness"]})
+    for _ in range(ck.n(260, 4000)):
+        jobs.append(c07_gen.g_job(r))
+    for i, j in enumerate(jobs):
+        j["id"] = i
+        j["timeout"] = 20
+    res = []
+    CH = 130
+    for k in range(0, len(jobs), CH):
+        part = [{"id": j["id"], "sources": j["sources"], "options": j["options"], "timeout": j["timeout"], "want": ["plan", "import", "bind"]}
+                for j in jobs[k:k + CH]]
+        res += codegen_run.run_jobs(part, timeout=1500)
+    coq = CoqBatch()
+    prelim = [classify_pipeline(j, x, coq) for j, x in zip(jobs, res)]
+    coq.run()
+    summary = {"runs": len(jobs), "by_kind": {}, "by_status": {}, "classes": {}, "standin_differences": len(diffs), "generated_classes": 0}
+    distinct = set()
+    for j, x, pre in zip(jobs, res, prelim):
+        summary["by_kind"][j["kind"]] = summary["by_kind"].get(j["kind"], 0) + 1
+        key = x["status"] + ("" if x["status"] == "ok" else ":" + x["stage"])
+        summary["by_status"][key] = summary["by_status"].get(key, 0) + 1
+        if x["stage"] not in ("config", "parse_map"):
+            distinct.add(("pipeline", hashlib.sha1(json.dumps([j["sources"], j["options"]], sort_keys=True).encode()).hexdigest()))
+        summary["generated_classes"] += len((x.get("bind") or {}).get("classes", []))
+        for cls, what in resolve_pipeline(j, x, pre, coq):
+            summary["classes"][cls] = summary["classes"].get(cls, 0) + 1
+            ck.failure(cls, f"[{j['kind']} {sorted(j['sources'])} {j['options']}] {what}",
+                       {"sources": j["sources"], "options": j["options"], "kind": j["kind"], "status": x["status"], "stage": x["stage"],
+                        "error": {k: v for k, v in (x.get("error") or {}).items() if k != "traceback"} if x.get("error") else None})
+    summary["wall_s"] = round(time.time() - t0, 1)
+    return {"runs": len(jobs), "distinct": distinct, "summary": summary}
+
+
+def _xsd(body):
+    return f'<xs:schema xmlns:xs="http://www.w3.org/2001/XMLSchema">{body}</xs:schema>'
+
+
+def _ct(name, els=(), attrs=(), extra=""):
+    return (f'<xs:complexType name="{name}"><xs:sequence>' + "".join(f'<xs:element name="{e}" type="xs:string"/>' for e in els)
+            + "</xs:sequence>" + "".join(f'<xs:attribute name="{a}" type="xs:string"/>' for a in attrs) + extra + "</xs:complexType>")
+
+
+W_XSD_PREF = _xsd(_ct("T", ["a", "a_attribute"], ["a"]))
+W_XSD_AWAIT = _xsd(_ct("T", ["await"]))
+W_XSD_NONETYPE = _xsd(_ct("None", ["x"]) + _ct("NoneType", ["y"]))
+W_XSD_ENUM = _xsd('<xs:simpleType name="E"><xs:restriction base="xs:string"><xs:enumeration value="1a"/><xs:enumeration value="value_1a"/>'
+                  '</xs:restriction></xs:simpleType>' + _ct("T", ["class", "class_value"]))
+W_XSD_BYTES = _xsd(_ct("T", ["x"], [], '<xs:attribute name="bytes" type="xs:string" default="x"/><xs:attribute name="b" type="xs:base64Binary"/>'))
+
+
 def run(ck: Check):
     ck.level = "proof"
     obligations, discharged, axioms = standard_proof_step(ck, extra_targets=["Model/SafeCorr.vo"])
@@ -359,7 +686,12 @@ def run(ck: Check):
     items = [it for it in items_of("rename_attrs")]
     for it in items:
         if "err" in it[2]:
-            ck.failure("unexpected-exception-" + it[2]["err"], f"rename_duplicate_attributes {it[1]} raised {it[2]}", {"op": it[1], "impl": it[2]})
+            if it[2]["err"] == "ValueError" and it[2].get("msg") == "no such name" and any(
+                    not re.sub(r"[^A-Za-z0-9]", "", a["name"]) and a["name"] for a in it[1]["attrs"]):
+                ck.failure("attr-name-without-unicode-name", f"Attr(name=...) of {[a['name'] for a in it[1]['attrs']]}: unicodedata.name raises ValueError",
+                           {"op": it[1], "impl": it[2]})
+            else:
+                ck.failure("unexpected-exception-" + it[2]["err"], f"rename_duplicate_attributes {it[1]} raised {it[2]}", {"op": it[1], "impl": it[2]})
     items = [it for it in items if "ok" in it[2]]
 
     def init_attrs(it):
@@ -407,21 +739,34 @@ def run(ck: Check):
         codes = coq_codes("dupclasses", "list (str * str) * list str * list str", "classify_dup_classes", cterms)
         for it, code in zip(dup_items, codes):
             what = f"classes {[(c['name'], c['abstract'], c['element']) for c in it[1]['classes']]} -> names {it[2]['ok']} -> class names {it[2]['class_names']}"
-            if code == 1:
+            if code == 1 and any(n.endswith("_abstract") for n in it[2]["ok"]):
                 ck.failure("dup-class-abstract-suffix", what, {"op": it[1], "impl": it[2]})
             elif code == 2:
                 ck.failure("dup-class-safe-adjust", what, {"op": it[1], "impl": it[2]})
             else:
                 ck.failure("dup-class-unexplained", what, {"op": it[1], "impl": it[2]})
 
+    pipe = pipeline_oracle(ck)
+    for k in pipe["distinct"]:
+        distinct.add(k)
+    ck.cov["evaluations"] += pipe["runs"]
+    ck.cov["pipeline"] = pipe["summary"]
+
     ck.cov["distinct_nontrivial"] = len(distinct)
     kinds = {}
     for m in meta:
         kinds[m["kind"]] = kinds.get(m["kind"], 0) + 1
     ck.cov["input_distribution"] = kinds
-    ck.cov["rule"] = "distinct (operation, input) pairs; every input reaches the modelled function"
+    ck.cov["rule"] = ("distinct (operation, input) pairs, every input reaches the modelled function; pipeline: distinct "
+                      "(source set, options) runs that got past parsing (stage process or later)")
     ck.cov["samples"] = [{"op": ops[i], "impl": res[i]} for i in (0, len(ops) // 3, len(ops) // 2, len(ops) - 1)]
     return ck.finish(obligations=obligations, discharged=discharged,
                      checker_cmd="make -C coq Properties/C07.vo && coqc -Q coq XV coq/Properties/C07.v (Print Assumptions)",
-                     trusted_base=TRUSTED_COMMON + ["axioms: " + (", ".join(axioms) or "none (closed under the global context)")],
-                     assumptions=[])
+                     trusted_base=TRUSTED_COMMON + [
+                         "axioms: " + (", ".join(axioms) or "none (closed under the global context)"),
+                         "harness/render_standin.py stands in for the six Jinja templates (validated against the committed fixture outputs "
+                         "on every run); /verif/shims stand in for click, jinja2, toposort, requests; ruff is skipped",
+                         "tools/gen_safe.py: interpreter tables for str.isalnum / XID_Start / XID_Continue / keyword.kwlist"],
+                     assumptions=["config.substitutions is empty (the default); aliases/extensions are not modelled",
+                                  "NFKC folding of non-ASCII identifiers is not modelled",
+                                  "importability is judged on stand-in rendered modules, not on Jinja output"])
